@@ -120,6 +120,48 @@ func c07Child(mode, in, out string) int {
 			sb.WriteString("// ==== " + flavor + "/" + n + "\n" + files[n])
 		}
 	}
+	// board-level top levels (Write_verilog_board): the I/O of the machine resolved in several ways
+	board := func(name string, f func() string) {
+		defer func() {
+			if e := recover(); e != nil {
+				sb.WriteString("// ==== " + name + "\n// generator panic: " + fmt.Sprint(e) + "\n")
+			}
+		}()
+		sb.WriteString("// ==== " + name + "\n" + f())
+	}
+	ioAssoc := func(pins bool) map[string]string {
+		m := map[string]string{"clk": "clk", "reset": "btnC"}
+		if pins {
+			for i := 0; i < bm.Inputs; i++ {
+				m["i"+strconv.Itoa(i)] = fmt.Sprintf("[%d:%d] sw", 8*i+7, 8*i)
+			}
+			for i := 1; i < bm.Outputs; i++ {
+				m["o"+strconv.Itoa(i)] = fmt.Sprintf("[%d:%d] led", 8*i+7, 8*i)
+			}
+		}
+		return m
+	}
+	board("board basys3: inputs on pins, output 0 on the 7-segment module, the others on pins", func() string {
+		var mods []bondmachine.ExtraModule
+		if bm.Outputs > 0 {
+			mods = append(mods, &bondmachine.B37s{Mapped_output: "o0"})
+		}
+		return bm.Write_verilog_board(new(bondmachine.Config), "bondmachine", "basys3", &bondmachine.IOmap{Assoc: ioAssoc(true)}, mods)
+	})
+	for _, flavor := range []string{"aximm", "axist"} {
+		flavor := flavor
+		board("board zedboard: every input and output through BMAPI "+flavor, func() string {
+			api := map[string]string{}
+			for i := 0; i < bm.Inputs; i++ {
+				api["i"+strconv.Itoa(i)] = strconv.Itoa(i)
+			}
+			for i := 0; i < bm.Outputs; i++ {
+				api["o"+strconv.Itoa(i)] = strconv.Itoa(i)
+			}
+			ex := &bondmachine.BMAPIExtra{Maps: &bondmachine.IOmap{Assoc: api}, Rsize: uint8(bm.Rsize), Language: "c", Flavor: flavor, DataType: "float32"}
+			return bm.Write_verilog_board(new(bondmachine.Config), "bondmachine", "zedboard", &bondmachine.IOmap{Assoc: ioAssoc(false)}, []bondmachine.ExtraModule{ex})
+		})
+	}
 	if err := os.WriteFile(out, []byte(sb.String()), 0o644); err != nil {
 		return 2
 	}
@@ -334,6 +376,13 @@ func runC07(r *evid.Run) {
 			return nil
 		}
 		k++
+		if s.Kind == "hybrid" && s.What == "rom0" {
+			src, _ := shapeText(s)
+			basmRuns = r.Pick(32, 120)
+			basmJob(fmt.Sprintf("shape-%d-hybrid-rom0", k), src)
+			basmRuns = nRuns
+			return nil
+		}
 		if (s.Kind == "hybrid" && len(s.Ram) >= 3) || (s.Kind == "romdata" && s.NData == 5 && s.NCode == 7) || (r.Thorough() && k%5 == 0) {
 			src, _ := shapeText(s)
 			basmJob(fmt.Sprintf("shape-%d", k), src)
